@@ -99,3 +99,21 @@ const RecursiveDefaultsSpec = `{"openapi":"3.0.3","info":{"title":"t","version":
 var RecursiveOddities = []string{`{"openapi":"3.0.3","info":{"title":"t","version":"1"},"paths":{"/a":{"post":{"operationId":"a","requestBody":{"content":{"application/json":{"schema":{"$ref":"#/components/schemas/P"}}}},"responses":{"200":{"description":"ok"}}}}},
 "components":{"schemas":{"P":{"allOf":[{"type":"object","properties":{"x":{"$ref":"#/components/schemas/P"}}},{"type":"object","properties":{"x":{"$ref":"#/components/schemas/P"}}}]}}}}`, `{"openapi":"3.0.3","info":{"title":"t","version":"1"},"paths":{"/a":{"get":{"operationId":"a","parameters":[{"name":"q","in":"query","schema":{"$ref":"#/components/schemas/Q"}}],"responses":{"200":{"description":"ok"}}}}},
 "components":{"schemas":{"Q":{"oneOf":[{"$ref":"#/components/schemas/Q"},{"type":"string"}]}}}}`}
+
+// CyclesSpec: reference cycles of every shape (mutual, 3-cycle, through sums, arrays, maps).
+const CyclesSpec = `{"openapi":"3.0.3","info":{"title":"t","version":"1"},"paths":{
+ "/folder":{"post":{"operationId":"folder","requestBody":{"required":true,"content":{"application/json":{"schema":{"$ref":"#/components/schemas/Folder"}}}},"responses":{"200":{"description":"ok","content":{"application/json":{"schema":{"$ref":"#/components/schemas/Owner"}}}}}}},
+ "/abc":{"post":{"operationId":"abc","requestBody":{"required":true,"content":{"application/json":{"schema":{"$ref":"#/components/schemas/B"}}}},"responses":{"200":{"description":"ok","content":{"application/json":{"schema":{"$ref":"#/components/schemas/A"}}}},"default":{"description":"e","content":{"application/json":{"schema":{"$ref":"#/components/schemas/C"}}}}}}},
+ "/sum":{"post":{"operationId":"sum","requestBody":{"required":true,"content":{"application/json":{"schema":{"$ref":"#/components/schemas/Sum"}}}},"responses":{"200":{"description":"ok","content":{"application/json":{"schema":{"$ref":"#/components/schemas/M"}}}}}}},
+ "/list":{"get":{"operationId":"list","responses":{"200":{"description":"ok","content":{"application/json":{"schema":{"type":"array","items":{"$ref":"#/components/schemas/Node"}}}}}}}}},
+"components":{"schemas":{
+ "Folder":{"type":"object","properties":{"owner":{"$ref":"#/components/schemas/Owner"},"name":{"type":"string","minLength":1}}},
+ "Owner":{"type":"object","properties":{"folders":{"type":"array","items":{"$ref":"#/components/schemas/Folder"}}}},
+ "A":{"type":"object","properties":{"b":{"$ref":"#/components/schemas/B"},"c":{"$ref":"#/components/schemas/C"}}},
+ "B":{"type":"object","properties":{"c":{"$ref":"#/components/schemas/C"},"a":{"$ref":"#/components/schemas/A"}}},
+ "C":{"type":"object","properties":{"a":{"$ref":"#/components/schemas/A"},"n":{"type":"integer","minimum":0}}},
+ "Sum":{"oneOf":[{"$ref":"#/components/schemas/Leaf"},{"$ref":"#/components/schemas/Node"}]},
+ "Leaf":{"type":"object","required":["v"],"properties":{"v":{"type":"string","pattern":"^a"}}},
+ "Node":{"type":"object","required":["kids"],"properties":{"kids":{"type":"array","items":{"$ref":"#/components/schemas/Sum"}},"next":{"$ref":"#/components/schemas/Node"},"alt":{"$ref":"#/components/schemas/Sum"}}},
+ "M":{"type":"object","additionalProperties":{"$ref":"#/components/schemas/M2"}},
+ "M2":{"type":"object","properties":{"m":{"$ref":"#/components/schemas/M"},"s":{"type":"string","maxLength":3},"self":{"$ref":"#/components/schemas/M2"}}}}}}`
